@@ -186,7 +186,8 @@ func (e *Exec) doStreamAN(ctx context.Context, st Step) error {
 			err = e.emit(map[string]any{"op": "Ack", "sub": st.Sub, "ids": ackKnown, "t0": t0, "t1": e.W.NowTU(), "code": "OK", "via": "stream"})
 		}
 		if err == nil && serr == nil {
-			t0 = e.W.NowTU()
+			// (t0 stays the instant the request was sent: the reader may have fixed "now" for the
+			// second transaction before it was parked at its BEGIN)
 			s.h.letOne()
 			select {
 			case <-s.h.txDone:
